@@ -210,7 +210,7 @@ func TestC17(t *testing.T) {
 			default:
 				call = fn + "(" + numExpr(a) + ")"
 			}
-			c.c17Program(s, "rand-doubles", P+" "+call+";\n", true, false, "fn "+fn)
+			c.c17Program(s, "rand-doubles", place(P+" "+call+";\n", drawPlacement(rt)), true, false, "fn "+fn)
 			if fn == bn.BPow {
 				c.c17PowPair(s, P+" "+call+";\n"+P+" "+numExpr(a)+" ** "+numExpr(b)+";\n")
 			}
